@@ -87,9 +87,12 @@ val enc_attrs : attr list -> coq_N list
 
 val dec_mpnlri : mode -> coq_N -> coq_N -> coq_N list -> mpnlri option
 
-val dec_attr_val : mode -> coq_N -> coq_N -> coq_N list -> attr option
+val dec_attr_val :
+  mode -> bool -> bool -> coq_N -> coq_N -> coq_N list -> attr option
 
-val dec_attrs : mode -> nat -> coq_N list -> attr list option
+val seen : mode -> bool -> coq_N -> coq_N -> bool
+
+val dec_attrs : mode -> bool -> bool -> nat -> coq_N list -> attr list option
 
 type update = { u_wd : pfx list; u_attrs : attr list; u_nlri : pfx list }
 
